@@ -72,17 +72,13 @@ Theorem run_dsl_inv :
 Proof. exact run_inv_lemma. Qed.
 Print Assumptions run_dsl_inv.
 
-(* F10 (open finding): without the NaN exclusion the statement is false -
-   schema.float(nan) is accepted and rejects its own value (isclose(nan, nan) is False). *)
-Theorem decl_fixed_conforms_refuted :
-  exists m s args s' v,
-    dsl_inv s = true /\ args_inv args = true /\ arity_ok (kind_of s) m args = true /\
-    decl m s args = Ok s' /\ fixed s' = Some v /\ verdict s' v = false.
-Proof.
-  exists MCall, (bare KdFloat), [AVal (VFloat fnan)], (SFloat (Some fnan) None None None), (VFloat fnan).
-  vm_compute. repeat split; reflexivity.
-Qed.
-Print Assumptions decl_fixed_conforms_refuted.
+(* F10 was repaired in the code (a value declared as nan is matched by nan): the former
+   counter-example now conforms.  The NaN-free hypotheses of decl_fixed_conforms are kept as
+   proved; they are no longer needed for this instance. *)
+Example decl_nan_conforms :
+  decl MCall (bare KdFloat) [AVal (VFloat fnan)] = Ok (SFloat (Some fnan) None None None)
+  /\ verdict (SFloat (Some fnan) None None None) (VFloat fnan) = true.
+Proof. vm_compute. split; reflexivity. Qed.
 
 (* ---- non-vacuity ---- *)
 Open Scope N_scope.
